@@ -210,6 +210,23 @@ fn check_in_range(ctx: &mut Ctx, acc: Acc, d: u16, t: u32, tclass: u64, prev: &m
     }
 }
 
+/// One (accessor, day, time) point judged on a worker thread (the striped sweep below).
+fn check_point(obs: &mut crate::ev::Obs, acc: Acc, d: u16, t: u32) {
+    let t_ms: u64 = if acc.minutes() { t as u64 * 60_000 } else { t as u64 };
+    let expected = cal::icd_epoch_ms(d, t_ms);
+    obs.case(mix(mix(0x57a + acc as u64, d as u64), t as u64));
+    let replay = json!({"accessor": acc.name(), "date": d, "time": t, "phase": "days handed to all worker threads in ascending order"});
+    match mon::catch(|| eval(acc, d as u32, t)) {
+        Err(p) => obs.violation(format!("{} {}", acc.name(), p.signature()), format!("panic at {}:{}: {}", p.file, p.line, p.message), replay),
+        Ok(Ok(Some((got, _)))) if got == expected => obs.count("instants_equal_to_calendar_in_the_striped_sweep", 1),
+        Ok(other) => obs.violation(
+            format!("{} wrong-instant", acc.name()),
+            format!("d={d} t={t}: expected {expected}, observed {:?} (days handed to all worker threads in ascending order)", other.map(|o| o.map(|x| x.0))),
+            replay,
+        ),
+    }
+}
+
 fn check_no_panic(ctx: &mut Ctx, acc: Acc, date: u32, time: u32) {
     ctx.obs.case(mix(mix(1000 + acc as u64, date as u64), time as u64));
     let replay = json!({"accessor": acc.name(), "date": date, "time": time, "clause": "no-panic"});
@@ -256,6 +273,24 @@ distinct = distinct (accessor, d, t-class); oracle = harness integer calendar: e
     }
     ts.sort();
     ts.dedup();
+
+    // First of all, while nothing in the process has seen a date yet: the day counts 1..=65535 in
+    // ascending order, handed out one by one to all worker threads at once, every accessor on each.
+    // At any moment a dozen threads ask for days nobody has asked for before - whatever the library
+    // builds or extends on first sight of a day is built and extended under contention.
+    {
+        let ts = ts.clone();
+        crate::ev::par_cases_pristine(ctx, 65_535, move |i, obs| {
+            let d = (i + 1) as u16;
+            let t = ts[(i as usize) % ts.len()];
+            for acc in MS_ACCS {
+                check_point(obs, acc, d, t);
+            }
+            for acc in MIN_ACCS {
+                check_point(obs, acc, d, (i % 1440) as u32);
+            }
+        });
+    }
 
     // Millisecond accessors, enumeration order (d ascending, t ascending) => strictly increasing.
     for acc in MS_ACCS {
